@@ -174,7 +174,9 @@ def plate_iteration(f, node, S, env):
             pv = tgt.id
             filt = list(ifs)
             src = it
-            if isinstance(src, ast.Name) and src.id in env:
+            for _ in range(4):
+                if not (isinstance(src, ast.Name) and src.id in env):
+                    break
                 d = env[src.id]
                 if isinstance(d, (ast.ListComp, ast.GeneratorExp)) and len(d.generators) == 1 and U(d.elt) == U(d.generators[0].target):
                     inner_v = U(d.generators[0].target)
@@ -182,11 +184,38 @@ def plate_iteration(f, node, S, env):
                     src = d.generators[0].iter
                 elif isinstance(d, ast.Call) and call_name(d) in ("list", "sorted", "tuple") and d.args:
                     src = d.args[0]
+                elif isinstance(d, (ast.Attribute, ast.Name)):
+                    src = d                          # a plain alias of the iterable (`plates = screen.plates`)
+                else:
+                    break
             if U(src) == f"{S}.plates":
                 N = Norm(strict=False)
                 skip = any(N.b(c) == N.b(ast.parse(f"not {pv}.is_observed", mode="eval").body) for c in filt)
                 return pv, loop, skip
     return None, None, False
+
+
+def misaligned_zip(f, node, S, env):
+    """the node sits in `for .. in zip(A, B, ..)` where the arguments are lists built per plate of S with different filters:
+    (text of the zip, the filters) ; None otherwise"""
+    par = enclosing_map(f.node)
+    n = node
+    while n in par:
+        n = par[n]
+        if isinstance(n, ast.For) and isinstance(n.iter, ast.Call) and call_name(n.iter) == "zip" and len(n.iter.args) >= 2:
+            filters = []
+            for a in n.iter.args:
+                d = inline(a, env)
+                if not (isinstance(d, (ast.ListComp, ast.GeneratorExp)) and len(d.generators) == 1):
+                    return None
+                g = d.generators[0]
+                it = inline(g.iter, env)
+                if U(it) != f"{S}.plates" or not isinstance(g.target, ast.Name):
+                    return None
+                filters.append(sorted(U(c).replace(f"{g.target.id}.", "p.") for c in g.ifs))
+            if len({tuple(x) for x in filters}) > 1:
+                return U(n.iter), " vs ".join("[" + ", ".join(x) + "]" if x else "[all plates]" for x in filters)
+    return None
 
 
 def r2_holdout(ctx, fq, plate_balanced):
@@ -273,6 +302,11 @@ def r2_holdout(ctx, fq, plate_balanced):
                             ctx.bad("R1", f"{f.site()}::row-space-of-the-drawn-indices",
                                     f"the draw `{U(src)[:60]}` iterates the plates of `{other}`, a screen re-built from a subset of `{S}`: its row positions "
                                     f"are not positions in `{S}`, yet they are written into `{V}` (one entry per row of `{S}`)")
+                            continue
+                        mis = misaligned_zip(f, src, S, env)
+                        if mis is not None:
+                            ctx.bad("R2", f"{f.site()}::per-plate-quota-of-the-same-plate", f"the draw runs over `{mis[0]}`: per-plate lists built with different filters "
+                                    f"({mis[1]}) are paired position by position, so a plate is sampled with the quota ceil(size * fraction) of another plate")
                             continue
                         raise AnalysisError(f"{f.site()}: the draw `{U(src)[:60]}` is not inside an iteration over `{S}.plates`")
                     lenv = {}
